@@ -399,12 +399,14 @@ fn any_weekday() -> Weekday {
 /// offsets for which `date - offset` stays representable for every supported date (chrono covers +-262 143 years)
 const MAX_DAY_OFFSET: i64 = 90_000_000;
 
-fn weekday_fixed_body(offset: i64) {
+/// `half`: 0 = every date, 1 = days 1..=183 of the year, 2 = days 184..=366
+fn weekday_fixed_body(offset: i64, half: u8) {
     let (s, e) = (any_weekday(), any_weekday());
     let nth_from_start = [nd::bool(), nd::bool(), nd::bool(), nd::bool(), nd::bool()];
     let nth_from_end = [nd::bool(), nd::bool(), nd::bool(), nd::bool(), nd::bool()];
     let r = ds::WeekDayRange::Fixed { range: s..=e, offset, nth_from_start, nth_from_end };
     let d = any_date();
+    nd::assume(half == 0 || (d.ordinal() <= 183) == (half == 1));
     let got = r.filter(d, &ctx());
     // spec: the day `offset` days earlier is a weekday of the (wrapping) range and sits at a selected
     // position of its month, counted from the start or from the end
@@ -437,12 +439,20 @@ fn weekday_fixed_has_no_hint() {
     vcover!("weekday_no_hint.reachable", true);
 }
 
-//@H tier_C04=thorough props=C01,C04 tier=quick kind=complete cap=1500 domain="offset 0: all weekday ranges x all nth masks x all dates 1900..9999"
+//@H props=C01,C04 tier=quick kind=complete cap=1500 domain="offset 0: all weekday ranges x all nth masks x days 1..=183 of every year 1900..9999"
 #[cfg_attr(kani, kani::proof)]
 #[cfg_attr(kani, kani::unwind(3))]
 #[cfg_attr(verif_replay, test)]
-fn weekday_fixed_filter_no_offset() {
-    weekday_fixed_body(0)
+fn weekday_fixed_filter_no_offset_first_half_year() {
+    weekday_fixed_body(0, 1)
+}
+
+//@H props=C01,C04 tier=quick kind=complete cap=1500 domain="offset 0: all weekday ranges x all nth masks x days 184..=366 of every year 1900..9999"
+#[cfg_attr(kani, kani::proof)]
+#[cfg_attr(kani, kani::unwind(3))]
+#[cfg_attr(verif_replay, test)]
+fn weekday_fixed_filter_no_offset_second_half_year() {
+    weekday_fixed_body(0, 2)
 }
 
 //@H props=C01,C04 tier=thorough kind=bounded cap=1500 mem=medium bound="|day offset| <= 2" domain="all weekday ranges x all nth masks x all dates 1900..9999"
@@ -452,7 +462,7 @@ fn weekday_fixed_filter_no_offset() {
 fn weekday_fixed_filter_with_offset() {
     let offset = nd::i64();
     nd::assume(-2 <= offset && offset <= 2);
-    weekday_fixed_body(offset)
+    weekday_fixed_body(offset, 0)
 }
 
 //@H props=C04 tier=quick kind=complete cap=900 finding=KF-C04-huge-day-offset domain="|day offset| > 90 000 000"
@@ -552,10 +562,13 @@ fn holiday_filter() {
     vcover!("holiday_filter.other_calendar_has_it", !got && unsafe { in_table(if kind == HolidayKind::Public { TABLE_SCHOOL } else { TABLE_PUBLIC }, d - Duration::days(offset)) });
 }
 
-fn holiday_hint_body(two: bool) {
+fn holiday_hint_body(two: bool, fixed_offset: Option<i64>) {
     let c = holiday_ctx_n(two);
     let kind = any_holiday_kind();
-    let offset = nd::i64();
+    let offset = match fixed_offset {
+        Some(o) => o,
+        None => nd::i64(),
+    };
     nd::assume(-1 <= offset && offset <= 1);
     let r = ds::WeekDayRange::Holiday { kind, offset };
     let d = any_date();
@@ -573,18 +586,38 @@ fn holiday_hint_body(two: bool) {
     vcover!("holiday_hint.on_holiday", r.filter(d, &c));
     vcover!("holiday_hint.eve_of_holiday", matches!(hint, Some(h) if h == d.succ_opt().unwrap() && !r.filter(d, &c)));
     vcover!("holiday_hint.no_more_holidays", hint == Some(date_end()));
-    vcover!("holiday_hint.positive_offset_next", offset > 0 && matches!(hint, Some(h) if h > d + Duration::days(2)) && hint != Some(date_end()));
-    vcover!("holiday_hint.negative_offset", offset < 0 && r.filter(d, &c));
+    vcover!("holiday_hint.positive_offset_next", offset <= 0 || (matches!(hint, Some(h) if h > d + Duration::days(2)) && hint != Some(date_end())));
+    vcover!("holiday_hint.negative_offset", offset >= 0 || r.filter(d, &c));
 }
 
-//@H tier_C04=thorough props=C02,C08,C04 tier=quick kind=bounded cap=1800 bound="|day offset| <= 1; calendars abstracted by 1 symbolic holiday each" domain="both kinds x all dates x all intermediate dates"
+//@H props=C02,C08,C04 tier=quick kind=bounded cap=1800 bound="day offset -1; calendars abstracted by 1 symbolic holiday each" domain="both kinds x all dates x all intermediate dates"
 #[cfg_attr(kani, kani::proof)]
 #[cfg_attr(kani, kani::unwind(3))]
 #[cfg_attr(kani, kani::stub(compact_calendar::CompactCalendar::contains, calendar_contains_model))]
 #[cfg_attr(kani, kani::stub(compact_calendar::CompactCalendar::first_after, calendar_first_after_model))]
 #[cfg_attr(verif_replay, test)]
-fn holiday_hint_1() {
-    holiday_hint_body(false)
+fn holiday_hint_1_minus_1_day() {
+    holiday_hint_body(false, Some(-1))
+}
+
+//@H props=C02,C08,C04 tier=quick kind=bounded cap=1800 bound="day offset 0; calendars abstracted by 1 symbolic holiday each" domain="both kinds x all dates x all intermediate dates"
+#[cfg_attr(kani, kani::proof)]
+#[cfg_attr(kani, kani::unwind(3))]
+#[cfg_attr(kani, kani::stub(compact_calendar::CompactCalendar::contains, calendar_contains_model))]
+#[cfg_attr(kani, kani::stub(compact_calendar::CompactCalendar::first_after, calendar_first_after_model))]
+#[cfg_attr(verif_replay, test)]
+fn holiday_hint_1_no_offset() {
+    holiday_hint_body(false, Some(0))
+}
+
+//@H props=C02,C08,C04 tier=quick kind=bounded cap=1800 bound="day offset 1; calendars abstracted by 1 symbolic holiday each" domain="both kinds x all dates x all intermediate dates"
+#[cfg_attr(kani, kani::proof)]
+#[cfg_attr(kani, kani::unwind(3))]
+#[cfg_attr(kani, kani::stub(compact_calendar::CompactCalendar::contains, calendar_contains_model))]
+#[cfg_attr(kani, kani::stub(compact_calendar::CompactCalendar::first_after, calendar_first_after_model))]
+#[cfg_attr(verif_replay, test)]
+fn holiday_hint_1_plus_1_day() {
+    holiday_hint_body(false, Some(1))
 }
 
 //@H props=C02,C08,C04 tier=thorough kind=bounded cap=2400 bound="|day offset| <= 1; calendars abstracted by 2 symbolic holidays each" domain="both kinds x all dates x all intermediate dates"
@@ -594,7 +627,7 @@ fn holiday_hint_1() {
 #[cfg_attr(kani, kani::stub(compact_calendar::CompactCalendar::first_after, calendar_first_after_model))]
 #[cfg_attr(verif_replay, test)]
 fn holiday_hint_2() {
-    holiday_hint_body(true)
+    holiday_hint_body(true, None)
 }
 
 // ---- lists of selectors and the DaySelector conjunction -------------------------------------------------------------
